@@ -344,6 +344,28 @@ func (w *crWorld) deliver(p *crPayload) {
 					c.Check("delta-extra", disc, "delta contains %s which did not change the state (expected%s, got%s)", w.name(k), w.fmtContent(expDelta), w.fmtContent(gotDelta))
 				}
 			}
+			// what travels onward is what the delta encodes to, not the object: the bytes must say the same
+			wire := crContent{}
+			for _, b := range delta.Encode() {
+				dec, err := event.DecodeState(b)
+				if err != nil {
+					c.Check("delta-missing", disc+" wire", "the delta handed back by the merge does not decode again: %v", err)
+					continue
+				}
+				for k, v := range readState(dec) {
+					wire[k] = v
+				}
+			}
+			for k, e := range expDelta {
+				if g, ok := wire[k]; !ok || g != e {
+					c.Check("delta-missing", disc+" wire", "the bytes the delta encodes to carry (+%d,-%d) for %s, the merge advanced (+%d,-%d) (expected%s, on the wire%s)", g.add, g.del, w.name(k), e.add, e.del, w.fmtContent(expDelta), w.fmtContent(wire))
+				}
+			}
+			for k := range wire {
+				if _, ok := expDelta[k]; !ok {
+					c.Check("delta-extra", disc+" wire", "the bytes the delta encodes to contain %s which did not change the state (expected%s, on the wire%s)", w.name(k), w.fmtContent(expDelta), w.fmtContent(wire))
+				}
+			}
 		}
 	}
 	w.verify(r, "merge")
